@@ -104,6 +104,34 @@ class RtAnalysis:
         OVERFLOW_ON[0] = bool(F.overflow_checks)
         self.ordering_sites, self.ordering_bad = self.check_orderings()
 
+    def owner_of(self, k):
+        """The function an obligation of instance k is reported under: the enclosing function of a closure; for a function
+        that did not exist on the pinned tree (an extracted helper), its nearest caller that did.  A closure written in such
+        a helper belongs to the helper's callers, not to whoever happens to invoke the closure."""
+        F = self.F
+        base = baseline_fns()
+        if getattr(self, '_by_path', None) is None:
+            self._by_path = {}
+            for i in self.rt:
+                self._by_path.setdefault(F.instances[i]['path'], i)
+        cur = k
+        for _ in range(12):
+            full = F.instances[cur]['path']
+            p = strip_closures(full)
+            if not base or p in base or F.instances[cur]['krate'] != 'kira':
+                return p
+            if p != full and p in self._by_path and self._by_path[p] != cur:
+                cur = self._by_path[p]          # lexical owner of the closure
+                continue
+            par = self.parent.get(cur)
+            if not par:
+                return p
+            cur = par[0]
+            # skip non-kira frames between the helper and its kira caller
+            while F.instances[cur]['krate'] != 'kira' and self.parent.get(cur):
+                cur = self.parent[cur][0]
+        return strip_closures(F.instances[k]['path'])
+
     def _reach_filtered(self):
         F = self.F
         seen = set()
@@ -305,22 +333,7 @@ class RtAnalysis:
 
         base = baseline_fns()
 
-        def owner_of(k):
-            """The function an obligation of instance k is reported under: the enclosing function of a closure; for a
-            function that did not exist on the pinned tree (an extracted helper), its nearest caller that did."""
-            cur = k
-            for _ in range(12):
-                p = strip_closures(F.instances[cur]['path'])
-                if not base or p in base or F.instances[cur]['krate'] != 'kira':
-                    return p
-                par = self.parent.get(cur)
-                if not par:
-                    return p
-                cur = par[0]
-                # skip non-kira frames between the helper and its kira caller
-                while F.instances[cur]['krate'] != 'kira' and self.parent.get(cur):
-                    cur = self.parent[cur][0]
-            return strip_closures(F.instances[k]['path'])
+        owner_of = self.owner_of
 
         for k in sorted(self.kira):
             inst = F.instances[k]
@@ -387,19 +400,7 @@ class RtAnalysis:
         F = self.F
         base = baseline_fns()
 
-        def owner_of(k):
-            cur = k
-            for _ in range(12):
-                p = strip_closures(F.instances[cur]['path'])
-                if not base or p in base or F.instances[cur]['krate'] != 'kira':
-                    return p
-                par = self.parent.get(cur)
-                if not par:
-                    return p
-                cur = par[0]
-                while F.instances[cur]['krate'] != 'kira' and self.parent.get(cur):
-                    cur = self.parent[cur][0]
-            return strip_closures(F.instances[k]['path'])
+        owner_of = self.owner_of
         seen_bodies = {}
         for i in sorted(self.rt):
             b = F.body_of_instance(i)
